@@ -236,9 +236,9 @@ func run(a hx.RunArgs) error {
 	// Fork(): hx.NewRand(k+1) is hx.NewRand(k) shifted by one draw; forking decorrelates the seeds
 	g := &m.Gen{R: hx.NewRand(a.Seed).Fork(), P: m.Profile{CIChance: [2]int{0, 1}, StrChance: [2]int{1, 3}, KeylessChance: [2]int{1, 4}, MaxStmts: 10}}
 
-	one := func(s m.Schema, h []m.Stmt) {
+	one := func(s m.Schema, next func(i int, cur []m.Row) *m.Stmt) {
 		dup := ""
-		steps := rn.History(s, h, func(i int, st m.Step) bool {
+		h, steps := rn.History(s, next, func(i int, st m.Step) bool {
 			dup = m.DupIn(s, st.Rows)
 			return dup != ""
 		})
@@ -269,7 +269,7 @@ func run(a hx.RunArgs) error {
 	}
 
 	for _, c := range corpus() {
-		one(c.S, c.H)
+		one(c.S, m.Fixed(c.H))
 	}
 	n := 1500
 	if a.Thorough {
@@ -277,7 +277,7 @@ func run(a hx.RunArgs) error {
 	}
 	for i := 0; i < n; i++ {
 		s := g.Schema()
-		one(s, g.History(s))
+		one(s, g.Next(s))
 	}
 	return nil
 }
